@@ -314,6 +314,9 @@ func (r *Reader) extractTextBlock(sp *spXML) *TextBlock {
 	return block
 }
 
+// maxParagraphLevel is the deepest list level DrawingML knows (a:pPr/@lvl is 0..8).
+const maxParagraphLevel = 8
+
 // extractParagraph extracts text and formatting from a paragraph.
 func (r *Reader) extractParagraph(p *pXML) Paragraph {
 	para := Paragraph{
@@ -322,7 +325,11 @@ func (r *Reader) extractParagraph(p *pXML) Paragraph {
 
 	// Get paragraph properties
 	if p.PPr != nil {
-		para.Level = p.PPr.Lvl
+		// The level comes from the file and sizes the indentation of the rendered item;
+		// DrawingML defines levels 0 to 8 only.
+		if p.PPr.Lvl >= 0 && p.PPr.Lvl <= maxParagraphLevel {
+			para.Level = p.PPr.Lvl
+		}
 		para.Alignment = p.PPr.Algn
 
 		// Check for bullets
